@@ -98,9 +98,18 @@ class World:
         import falcon  # noqa: F401  (source importer installed by the CLI)
         self.fs = fs
         self.widths = fs['widths']
-        name = 'c16' + ''.join(rng.choice('abcdefghijklmnopqrstuvwxyz0123456789') for _ in range(8))
-        self.base = os.path.join('/tmp', name)
-        os.mkdir(self.base, 0o700)
+        # same length every time (the width table depends on it); a concurrent run with the same seed must not collide
+        pick = rng
+        for _attempt in range(50):
+            name = 'c16' + ''.join(pick.choice('abcdefghijklmnopqrstuvwxyz0123456789') for _ in range(8))
+            self.base = os.path.join('/tmp', name)
+            try:
+                os.mkdir(self.base, 0o700)
+                break
+            except FileExistsError:
+                pick = random.SystemRandom()
+        else:
+            raise MachineryError('cannot create a scratch directory under /tmp')
         self.names = {'base': name, 'L': 'L' * 171, 'M': 'M' * 170}
         for a, w in self.widths.items():
             if a in ('/', '.', 'sp', 'bsl', 'bad', 'u'):
